@@ -856,7 +856,44 @@ func isMaxPacketSizeLoad(v ssa.Value) bool {
 		return false
 	}
 	f := core.FieldOfAddr(fa)
-	return f != nil && strings.EqualFold(f.Name(), "MaxPacketSize")
+	if f == nil {
+		return false
+	}
+	if f.Name() == "MaxPacketSize" {
+		return true // the exported configuration field of Server / Client
+	}
+	return mpsAlias(f)
+}
+
+// mpsAlias: an unexported int field that is only ever assigned a load of
+// MaxPacketSize (the multicast writer keeps a private copy of the server's
+// limit): a load of it is a load of the limit, whatever the field is called.
+var mpsAliasCache = map[*types.Var]bool{}
+
+func mpsAlias(f *types.Var) bool {
+	if v, ok := mpsAliasCache[f]; ok {
+		return v
+	}
+	mpsAliasCache[f] = false
+	if Cur == nil || token.IsExported(f.Name()) {
+		return false
+	}
+	n := 0
+	for _, acc := range Cur.FieldAccesses(f) {
+		st, ok := acc.Instr.(*ssa.Store)
+		if !ok || !acc.Write {
+			continue
+		}
+		if st.Addr != ssa.Value(acc.Addr) {
+			return false
+		}
+		n++
+		if !isMaxPacketSizeLoad(st.Val) {
+			return false
+		}
+	}
+	mpsAliasCache[f] = n > 0
+	return n > 0
 }
 
 // plainBudget checks that v is MaxPacketSize on the path where the context is
@@ -1237,7 +1274,13 @@ func c17CtxLock(c *Ctx) {
 				if states == nil {
 					states = core.LockStates(fn, core.LockSet{})
 				}
+				// the context's mutex, whatever it is called: any mutex field of the same object
 				need := core.PathOf(fa.X) + ".mutex"
+				for _, m := range p.MutexFields("", "wrappedSRTPContext") {
+					if states[in].Holds(core.PathOf(fa.X)+"."+m, name != "ROC") {
+						need = core.PathOf(fa.X) + "." + m
+					}
+				}
 				excl := name != "ROC"
 				r.Check(states[in].Holds(need, excl), "C17/SRTP-CTX-LOCK", fmt.Sprintf("%s calls srtp.Context.%s", fnShort(fn), name), p.Pos(ci.Pos()), "mutex held ("+states[in].String()+")",
 					fmt.Sprintf("%s on the shared SRTP context with %s held, needs %s %s: concurrent writers of two formats of one media corrupt the cipher state (packets fail authentication, or the process panics)", name, states[in], need, map[bool]string{true: "exclusively", false: "at least shared"}[excl]))
